@@ -61,13 +61,13 @@ pub fn section_data_iff(file: &'static [u8], class: Class, e: AnyEndian) {
                 assert!(fits);
                 assert!(s.as_ptr() as usize == base + sh.sh_offset as usize);
                 assert!(s.len() as u64 == sh.sh_size);
-                kani::cover!(sh.sh_size > 0 && sh.sh_offset + sh.sh_size == len, "range ending exactly at EOF");
+                kani::cover!(sh.sh_size > 0 && sh.sh_offset.wrapping_add(sh.sh_size) == len, "range ending exactly at EOF");
                 kani::cover!(sh.sh_size == 0 && sh.sh_offset == len, "empty range at EOF");
             }
             Ok((_, Some(_))) => assert!(false),
             Err(_) => {
                 assert!(!fits);
-                kani::cover!(sh.sh_offset < len && sh.sh_offset + sh.sh_size == len + 1, "range one past EOF");
+                kani::cover!(sh.sh_offset < len && sh.sh_offset.wrapping_add(sh.sh_size) == len + 1, "range one past EOF");
                 kani::cover!(sh.sh_offset == u64::MAX, "offset 2^64-1");
             }
         }
